@@ -6,7 +6,7 @@ ID = PROP = 'C01'
 LEVEL = 'exploration'
 RULE = ('a case is one sentence (1-7 words, 2-6 tags) with a random head-uniform table grammar (0-3 results per pair, acyclic unary '
         'chains, random root set), score family in {dyadic uniform, dyadic deceptive, dyadic ties, dyadic/64, log-softmax}, unary '
-        'penalty in {0,1/8,1/2,1}, pruning/beta settings, parsed by the real parsing.run->parsing.pyx->parsing.h (plain and '
+        'penalty in {0,1/8,1/2,1}, pruning/beta settings, arcs of probability 0 (-inf), parsed by the real parsing.run->parsing.pyx->parsing.h (plain and '
         'ASan+UBSan builds) with the pop hook on; plus real-grammar sentences. Monitors: pop priorities non-increasing (exact for '
         'dyadic scores), first parse == exhaustive-CKY optimum, failure only if no derivation. distinct = fingerprint of '
         '(grammar, matrices, config); non-trivial = the reference enumerates >= 2 rooted derivations.')
@@ -33,6 +33,8 @@ def gen(rng, spec):
         return case
     if r < 0.33:
         return search.gen_case(rng, max_n=5, many_cats=True)      # category ids far beyond the tag list
+    if r < 0.38:
+        return search.neginf_arcs(rng, search.gen_case(rng, max_n=5, sparse=rng.random() < 0.5))   # arcs of probability 0
     return search.gen_case(rng, max_n=7 if r < 0.5 else 5, sparse=r > 0.8)
 
 
